@@ -258,6 +258,55 @@ def gen_cases(ctx, extra_bias=None):
         cases.append(sysc(ci("v1unstake", []), amt=10000 * AERGO, bno=300000))
         cases.append(sysc(ci("v1unstake", []), amt=13000 * AERGO, snd=1, bno=300001))
         cases.append(sysc(ci("v1voteBP", ps[:1]), bno=400000))
+    # governance HISTORIES of one account: a voted value (or candidate) loses its last supporter by a full unstake and is
+    # voted again after staking again -- the previous vote record then names a tally entry whose amount went to zero.
+    # Deterministic shapes per parameter / for BP votes, then random histories over {stake, full / partial unstake,
+    # voteDAO, voteBP} for two accounts with the staked amounts tracked (every step one delay period later).
+    D = 100000
+    for fork in ((3,) if quick else (2, 3)):
+        for prm, v1, v2 in (("BPCOUNT", "13", "14"), ("GASPRICE", "7", "8"), ("NAMEPRICE", "1000", "2000"), ("STAKINGMIN", str(AERGO), str(2 * AERGO))):
+            gi = newg()
+            sysc = lambda c, **kw: mk(gi, "aergo.system", c, fork=fork, **kw)
+            cases.append(sysc(ci("v1stake", []), amt=10000 * AERGO, bno=1))
+            cases.append(sysc(ci("v1voteDAO", [prm, v1]), bno=2))
+            cases.append(sysc(ci("v1unstake", []), amt=10000 * AERGO, bno=D))
+            cases.append(sysc(ci("v1stake", []), amt=10000 * AERGO, bno=2 * D))
+            cases.append(sysc(ci("v1voteDAO", [prm, v1]), bno=3 * D))
+            cases.append(sysc(ci("v1voteDAO", [prm.lower(), v2]), bno=4 * D))
+            cases.append(sysc(ci("v1unstake", []), amt=10000 * AERGO, bno=5 * D))
+        gi = newg()
+        ps = [peer_id(rng) for _ in range(3)]
+        sysc = lambda c, **kw: mk(gi, "aergo.system", c, fork=fork, **kw)
+        cases.append(sysc(ci("v1stake", []), amt=10000 * AERGO, bno=1))
+        cases.append(sysc(ci("v1voteBP", ps[:2]), bno=2))
+        cases.append(sysc(ci("v1unstake", []), amt=10000 * AERGO, bno=D))
+        cases.append(sysc(ci("v1stake", []), amt=10000 * AERGO, bno=2 * D))
+        cases.append(sysc(ci("v1voteBP", ps[:1]), bno=3 * D))
+        cases.append(sysc(ci("v1voteBP", ps[1:]), bno=4 * D))
+        cases.append(sysc(ci("v1unstake", []), amt=10000 * AERGO, bno=5 * D))
+    for _ in range(6 if quick else 400):
+        gi = newg()
+        fork = rng.choice([2, 3])
+        ps = [peer_id(rng) for _ in range(3)]
+        staked = {0: 0, 1: 0}
+        bno = 1
+        for _k in range(rng.randint(6, 11)):
+            snd = rng.choice([0, 0, 1])
+            r = rng.random()
+            if staked[snd] == 0 or r < 0.15:
+                amt = rng.choice([10000, 20000]) * AERGO
+                cases.append(mk(gi, "aergo.system", ci("v1stake", []), amt=amt, snd=snd, fork=fork, bno=bno))
+                staked[snd] += amt
+            elif r < 0.4:
+                amt = staked[snd] if rng.random() < 0.7 else 1 * AERGO
+                cases.append(mk(gi, "aergo.system", ci("v1unstake", []), amt=amt, snd=snd, fork=fork, bno=bno))
+                staked[snd] -= amt
+            elif r < 0.75:
+                prm, vals = rng.choice([("BPCOUNT", ["13", "14"]), ("GASPRICE", ["7", "8"])])
+                cases.append(mk(gi, "aergo.system", ci("v1voteDAO", [prm, rng.choice(vals)]), snd=snd, fork=fork, bno=bno))
+            else:
+                cases.append(mk(gi, "aergo.system", ci("v1voteBP", rng.sample(ps, rng.randint(1, 2))), snd=snd, fork=fork, bno=bno))
+            bno += D
     # special account names (DecodeAddress accepts them), a registered 12-character name, the sender itself and the
     # contract accounts in EVERY address-typed argument position, each on a fresh state, through admission and execution
     special = ["aergo.name", "aergo.system", "aergo.enterprise", "aergo.vault", "abcdefghijkl", "@A0", "@A1"]
